@@ -19,6 +19,10 @@ pub enum QOp {
     Len,
     IsEmpty,
     ToVec,
+    /// macro letters: push #100..#100+n, remove the first k of them, remove every second one of the first n
+    BulkPush(u64),
+    BulkRemove(u64),
+    BulkRemoveEven(u64),
 }
 
 /// queue-alphabet ids: 1..3 are UUID-format ids, 4 is a ULID-format id with the same 16 bytes as #1
@@ -83,8 +87,20 @@ pub struct QAux {
     pub queued: u8,
 }
 
+fn bulk_q_order(i: u64) -> Ord_ {
+    crate::seq_level::bulk_order(i, LEVEL_PRICE)
+}
+
 fn apply_impl(rec: &Recorder, q: &OrderQueue, op: &QOp) -> QRes {
     let r = rec.with_budget(10_000, || match op {
+        QOp::BulkPush(n) => {
+            for i in 0..*n {
+                q.push(Arc::new(bulk_q_order(i)));
+            }
+            QRes::Unit
+        }
+        QOp::BulkRemove(k) => QRes::Num((0..*k).filter(|i| q.remove(oid(100 + i)).is_some()).count()),
+        QOp::BulkRemoveEven(n) => QRes::Num((0..*n).step_by(2).filter(|i| q.remove(oid(100 + i)).is_some()).count()),
         QOp::Push(id) => {
             q.push(Arc::new(q_order(*id)));
             QRes::Unit
@@ -113,6 +129,14 @@ fn rec_key(o: &Ord_) -> Rec {
 
 fn apply_model(m: &mut ModelQueue, op: &QOp) -> QRes {
     match op {
+        QOp::BulkPush(n) => {
+            for i in 0..*n {
+                m.push(bulk_q_order(i));
+            }
+            QRes::Unit
+        }
+        QOp::BulkRemove(k) => QRes::Num((0..*k).filter(|i| m.remove(oid(100 + i)).is_some()).count()),
+        QOp::BulkRemoveEven(n) => QRes::Num((0..*n).step_by(2).filter(|i| m.remove(oid(100 + i)).is_some()).count()),
         QOp::Push(id) => {
             m.push(q_order(*id));
             QRes::Unit
@@ -138,7 +162,7 @@ fn content(q: &OrderQueue) -> Vec<Ord_> {
 
 fn drain(q: &OrderQueue) -> Vec<u128> {
     let mut out = vec![];
-    for _ in 0..64 {
+    for _ in 0..1024 {
         match q.pop() {
             Some(o) => out.push(rec(&o).id),
             None => break,
@@ -201,6 +225,9 @@ impl Subject for QueueSubject {
             QOp::Len => "len".into(),
             QOp::IsEmpty => "is_empty".into(),
             QOp::ToVec => "to_vec".into(),
+            QOp::BulkPush(n) => format!("push #100..#{}", 99 + n),
+            QOp::BulkRemove(k) => format!("remove #100..#{}", 99 + k),
+            QOp::BulkRemoveEven(n) => format!("remove every second of #100..#{}", 99 + n),
         }
     }
     fn initial_aux(&self) -> QAux {
@@ -220,6 +247,11 @@ impl Subject for QueueSubject {
             if aux.queued & (1 << id) != 0 {
                 return StepOut::disabled(*aux);
             }
+        }
+        match op {
+            QOp::BulkPush(_) if aux.queued & 0x80 != 0 => return StepOut::disabled(*aux),
+            QOp::BulkRemove(_) | QOp::BulkRemoveEven(_) if aux.queued & 0x80 == 0 => return StepOut::disabled(*aux),
+            _ => {}
         }
         rcd.reset();
         let q = OrderQueue::new();
@@ -351,6 +383,9 @@ impl Subject for QueueSubject {
             if recs.iter().any(|r| r.id == n) {
                 queued |= 1 << id;
             }
+        }
+        if recs.iter().any(|r| (100..300).contains(&r.id)) {
+            queued |= 0x80;
         }
         out.aux.queued = queued;
         out
@@ -488,6 +523,50 @@ pub fn run(tier: &str) -> i32 {
             json!({"engine": "seq-queue", "property": "C19", "tier": tier, "history": h, "history_names": names(h)}),
         );
     }
+    // large configurations: 70 queued orders, 64 removed at the head / every second one removed
+    let bulk_subject = QueueSubject {
+        ops: vec![
+            QOp::BulkPush(70),
+            QOp::BulkRemove(64),
+            QOp::BulkRemove(8),
+            QOp::BulkRemoveEven(70),
+            QOp::Push(1),
+            QOp::Remove(1),
+            QOp::Pop,
+            QOp::Len,
+            QOp::Find(1),
+        ],
+        known: KnownFindings::load(),
+    };
+    let bulk_depth = if tier == "quick" { 5 } else { 7 };
+    let rb = bfs(
+        &bulk_subject,
+        &BfsConfig {
+            max_depth: bulk_depth,
+            wall_cap: crate::seq_checks::wall_cap(tier, 2),
+            state_cap: 5_000_000,
+            threads: crate::seq_checks::threads(),
+        },
+    );
+    println!(
+        "  [C19] bulk alphabet: letters={} depth {}/{} states={} transitions={} {}",
+        bulk_subject.ops.len(), rb.depth_completed, bulk_depth, rb.states, rb.transitions, rb.capped.clone().unwrap_or_default()
+    );
+    let bnames = |h: &[u16]| h.iter().map(|o| bulk_subject.op_name(*o)).collect::<Vec<_>>();
+    for (sig, (msg, h, n)) in &rb.known {
+        report.known(sig, format!("[bulk] minimal history: {} :: {}", bnames(h).join("; "), msg));
+        if let Some(e) = report.known.get_mut(sig) {
+            e.1 += n - 1;
+        }
+    }
+    for (msg, h) in rb.violations.iter().take(20) {
+        report.violation(
+            format!("[bulk] after history [{}]: {}", bnames(h).join("; "), msg),
+            json!({"engine": "seq-queue", "property": "C19", "tier": tier, "history": h, "history_names": bnames(h)}),
+        );
+    }
+    report.add_cov_u64("bulk_alphabet_states", rb.states);
+    report.add_cov_u64("bulk_alphabet_transitions", rb.transitions);
     let _rec = Recorder::install();
     let (n, msgs, csamples) = constructor_grid();
     drop(_rec);
